@@ -14,8 +14,15 @@ import (
 	"github.com/internetarchive/Zeno/pkg/models"
 )
 
-func normOnce(raw, parent string) (string, string) {
+func normOnce(raw, parent string) (string, string) { return normWith(raw, parent, false) }
+
+// normWith: preparsed = the URL object went through models.URL.Parse() before (as the seed sources do);
+// the result must not depend on it ("a pure function of the URL text and its parent URL")
+func normWith(raw, parent string, preparsed bool) (string, string) {
 	u := &models.URL{Raw: raw}
+	if preparsed {
+		_ = u.Parse()
+	}
 	var p *models.URL
 	if parent != "" {
 		p = &models.URL{Raw: parent}
@@ -56,6 +63,11 @@ func init() {
 					} else {
 						distinct[s] = true
 					}
+				}
+				if s, e2 := normWith(raw, parent, true); e2 != "" {
+					distinct["!"+e2] = true
+				} else {
+					distinct[s] = true
 				}
 				again, e3 := normOnce(first, "")
 				if e3 != "" {
